@@ -94,7 +94,7 @@ def run(ctx):
     refparser.require()
     ctx.build_bins()
     rng = ctx.rng
-    n_lists = 4000 if ctx.tier == "quick" else 120000
+    n_lists = 3000 if ctx.tier == "quick" else 120000
     ctx.rule = ("each list of 2-12 valid rules (every order for n<=3 of the near-duplicate strata: pairs differing only in letter case, one "
                 "byte, one field, the qualifier or `owner`; empty vs non-empty set fields) is one program pair L / Merge(L): an independent "
                 "denotation (atomic facts, byte-exact) must be equal, Merge must be idempotent, and for lists of AppArmor-3 kinds both texts "
@@ -126,20 +126,24 @@ def run(ctx):
             # same subject, different set fields (incl. empty = all)
             a = rng.choice([r for r in pool if r["kind"] in ("signal", "ptrace", "unix", "dbus", "file", "capability", "mount", "mqueue", "io_uring")])
             import copy
-            b = copy.deepcopy(a)
-            for fld, vals in (("Access", None), ("Set", rulegen.SIGNALS), ("Names", rulegen.CAPS), ("Options", rulegen.MOPTS)):
+            variants = [a]
+            for _v in range(rng.randint(1, 3)):
+              b = copy.deepcopy(a)
+              for fld, vals in (("Access", None), ("Set", rulegen.SIGNALS[:4]), ("Names", rulegen.CAPS), ("Options", rulegen.MOPTS)):
                 if fld in b:
                     if fld == "Access":
                         vals = {"signal": ["send", "receive"], "ptrace": rulegen.PTRACE, "unix": ["send", "receive", "connect"], "dbus": ["send", "receive"],
                                 "file": ["r", "w", "k", "l", "m"], "mqueue": rulegen.MQ_ACC, "io_uring": ["sqpoll", "override_creds"]}[b["kind"]]
                     if b["kind"] == "dbus" and "bind" in b["Access"]:
                         continue
-                    b[fld] = rulegen.subset(rng, vals, 0 if b["kind"] not in ("file", "capability", "mqueue", "io_uring") else 1, 3)
-            if b["kind"] == "file":
+                    b[fld] = rulegen.subset(rng, vals, 0 if b["kind"] not in ("file", "capability", "mqueue", "io_uring") else 1, 2)
+              if b["kind"] == "file":
                 # keep the exec transition (and with it the target) of the original so that the rule stays valid
                 tr = [x for x in a["Access"] if x not in ("m", "r", "w", "l", "k")]
                 b["Access"] = b["Access"] + tr
-            lst = [a, b] if rng.random() < 0.5 else [b, a]
+              variants.append(b)
+            lst = variants
+            rng.shuffle(lst)
         lists.append((stratum, lst))
     agg = {}
 
@@ -254,7 +258,7 @@ RE_CAPS = re.compile(r"^(Capabilities|Network|Rlimit|quiet|audit|deny).*", re.M)
 
 def compare_policies(a, b, ov):
     r1 = compare_policies_once(a, b, ov)
-    if r1[0] not in ("equal", "equal-by-automata"):
+    if r1[0] not in ("equal", "equal-by-automata") or "deny " not in a:
         return r1
     # deny rules only subtract from what is allowed: compile again under blanket allow rules so that they show
     blanket = "\n".join("  " + x for x in ("file,", "capability,", "network,", "mount,", "remount,", "umount,", "pivot_root,", "change_profile,",
